@@ -175,16 +175,24 @@ class Interp:
     def model_call(self, fn, args, kwargs):
         S = V
         if fn is len:
-            return len(args[0])
+            return S.blen(args[0])
         if fn is isinstance:
             obj, cls = args
             return _isinstance(obj, cls)
         if fn is memoryview:
+            if isinstance(args[0], S.SymBlob):
+                v = S.SymBlob(args[0].segs, "memoryview" if args[0].kind != "bytearray" else "memoryview")
+                if args[0].kind == "bytearray":
+                    v.segs = args[0].segs  # a view of a bytearray writes through
+                    v.base = args[0]
+                return v
             return S.SymView(args[0])
         if fn is bytearray:
             if not args:
                 return S.SymByteArray()
             a = args[0]
+            if isinstance(a, S.SymBlob):
+                return a.copy_as("bytearray")
             if isinstance(a, int):
                 return S.SymByteArray([0] * S.alloc_guard(a))
             if isinstance(a, S.SymInt):
@@ -194,6 +202,8 @@ class Interp:
             if not args:
                 return b""
             a = args[0]
+            if isinstance(a, S.SymBlob):
+                return a.copy_as("bytes")
             if isinstance(a, (S.SymSeq, list, tuple)):
                 return S.SymBytes(S.seq_items(a)).norm()
             return bytes(*args, **kwargs)
@@ -244,6 +254,13 @@ class Interp:
         if isinstance(bself, (bytes, bytearray)) and isinstance(fn, types.BuiltinMethodType):
             if name == "join":
                 parts = list(args[0])
+                if any(isinstance(p, S.SymBlob) for p in parts):
+                    segs = []
+                    for i, p in enumerate(parts):
+                        if i and bself:
+                            segs.append(("lit", list(bself)))
+                        segs.extend(S.SymBlob.of(p).segs)
+                    return S.SymBlob(segs, "bytes").norm()
                 if any(isinstance(p, S.SymSeq) for p in parts):
                     items = []
                     for i, p in enumerate(parts):
@@ -716,6 +733,8 @@ def _isinstance(obj, cls):
         return cls in (bytearray, object)
     if isinstance(obj, V.SymView):
         return cls in (memoryview, object)
+    if isinstance(obj, V.SymBlob):
+        return cls in ({"bytes": bytes, "bytearray": bytearray, "memoryview": memoryview}[obj.kind], object)
     if isinstance(obj, SymUUID):
         return cls in (uuid.UUID, object)
     if isinstance(obj, V.SymStr):
